@@ -3,6 +3,7 @@
 -/
 import DdnnfVerif.Model.Session
 import DdnnfVerif.Proofs.Paging
+import DdnnfVerif.Proofs.MarkState
 namespace Ddnnf.C16
 
 /-- a non-paging request is answered from the model and the request alone, and leaves the state unchanged -/
@@ -51,5 +52,26 @@ theorem paging_state_belongs_to_one_assumption_set (nodes : List NType) (n : Nat
     (B : List Int) (k : Nat) (key : List Int) (hne : sortAbs B ≠ key) :
     (enumerate nodes n cur B k).1.get key = cur.get key :=
   enumerate_other_key nodes n cur B k key hne
+
+
+/-! ### the scratch state (`temp`, `marker`, `md`) made explicit: Model/MarkState.lean -/
+
+/-- whatever an earlier request left in the `temp` fields: a counting request on a clean state (nothing
+marked, `md` empty) returns exactly `execute_query`'s pure answer, and leaves the state clean again
+with the cached counts untouched — stale `temp` values are never read -/
+theorem count_ignores_stale_scratch_state (nodes : List NType) (n : Nat) (htopo : Topo nodes)
+    (hne : nodes ≠ []) (hu : LitUnique nodes) (hpar : MS.HasParents nodes)
+    (s : MS.St) (hclean : MS.Clean s) (hcnt : MS.CountsOK nodes s) (A : List Int) :
+    (MS.execQuerySt nodes n s A).2 = execQuery nodes n A ∧
+      MS.Clean (MS.execQuerySt nodes n s A).1 ∧ MS.CountsOK nodes (MS.execQuerySt nodes n s A).1 :=
+  MS.execQuerySt_spec nodes n htopo hne hu hpar s hclean hcnt A
+
+/-- any sequence of counting requests on one long-lived instance, starting from arbitrary `temp`
+contents, is answered like a sequence of requests on fresh instances -/
+theorem counting_history_is_irrelevant (nodes : List NType) (n : Nat) (htopo : Topo nodes)
+    (hne : nodes ≠ []) (hu : LitUnique nodes) (hpar : MS.HasParents nodes)
+    (tmp : Nat → Nat) (reqs : List (List Int)) :
+    (MS.runSt nodes n (MS.initSt nodes tmp) reqs).2 = reqs.map (execQuery nodes n) :=
+  MS.history_independent nodes n htopo hne hu hpar tmp reqs
 
 end Ddnnf.C16
